@@ -464,7 +464,7 @@ def run(ctx):
     mev = W.ev(main.path)
     # the call that yields the ParsedResponse
     PARSED = "roughenough_client::ParsedResponse"
-    pcs = W.ctor_fields(PARSED)
+    pcs = [c_ for c_ in W.ctor_fields(PARSED) if not getattr(c_[0], "derived", False)]      # (a derived Clone builds one too)
     if len(pcs) != 1:
         raise AnchorMissing("exactly one construction of ParsedResponse")
     pfn, pbb, pidx, pfields = pcs[0]
